@@ -62,3 +62,7 @@ pub fn verif_label_analyze(program: Vec<Declaration>) -> Vec<Declaration>
 {
 	label_references::analyze(program)
 }
+
+/// Verification hooks: the containment closure and the container depths.
+#[cfg(feature = "verif")]
+pub use variable_references::verif_hooks as verif_container_hooks;
